@@ -17,12 +17,12 @@ import (
 // calls deep, returns to callers, range elements) to its sinks.
 
 type sink struct {
-	Field string // protocol parameter
-	Kind  string // cmp | arith | arg | message | return | store | index | elemcmp | other
-	Fn    *ssa.Function
-	Instr ssa.Instruction
-	Op    string     // cmp: operator normalised so that the parameter is on the right (X Op P)
-	Other *core.Term // cmp/arith: the other operand
+	Field  string // protocol parameter
+	Kind   string // cmp | arith | arg | message | return | store | index | elemcmp | other
+	Fn     *ssa.Function
+	Instr  ssa.Instruction
+	Op     string     // cmp: operator normalised so that the parameter is on the right (X Op P)
+	Other  *core.Term // cmp/arith: the other operand
 	OtherV ssa.Value
 	Callee string // arg: callee name
 	ArgIdx int
